@@ -87,6 +87,7 @@ fn run_lines() {
             "sub" => c11::sub(&mut t),
             "upd" => c14::upd(&mut t),
             "attach" => c12::attach(&mut t),
+            "early" => c12::early(&mut t),
             "restart" => c13::restart(&mut t),
             "schema" => c15::schema(&mut t),
             "authz" => c17::authz(&mut t),
